@@ -4,43 +4,7 @@
 // discrete-log form from the IETF draft.
 // ---------------------------------------------------------------------------------------------
 
-/// reference: every key valid, (Basic: messages pairwise distinct), sum_i h(m_i) X_i == dl(sig)
-pub open spec fn ietf_aggregate_verify(s: SignatureSchemes, l: Seq<(Pk, &[u8])>, sig: Sig) -> bool {
-    &&& forall|i: int| 0 <= i < l.len() ==> (#[trigger] l[i]).0.dl() != 0
-    &&& match s {
-        SignatureSchemes::Basic => msgs_distinct(l) && sum_hx(l, DST_BASIC()) == sig.dl(),
-        SignatureSchemes::MessageAugmentation => sum_hx_aug(l, DST_AUG()) == sig.dl(),
-        SignatureSchemes::ProofOfPossession => sum_hx(l, DST_POP_SIG()) == sig.dl(),
-    }
-}
-
-pub proof fn lemma_distinct_prefix_iff<B: AsRefBytes>(l: Seq<(Pk, B)>, n: int)
-    requires 0 <= n <= l.len(),
-    ensures distinct_prefix(l, n) <==> (forall|i: int, j: int| 0 <= i < j < n ==> (#[trigger] l[i]).1.bytes() != (#[trigger] l[j]).1.bytes()),
-    decreases n
-{
-    if n > 0 {
-        lemma_distinct_prefix_iff(l, n - 1);
-        lemma_seen_iff(l, n - 1, l[n - 1].1.bytes());
-    }
-}
-pub proof fn lemma_seen_iff<B: AsRefBytes>(l: Seq<(Pk, B)>, n: int, b: Seq<u8>)
-    requires 0 <= n <= l.len(),
-    ensures seen(l, n, b) <==> (exists|i: int| 0 <= i < n && (#[trigger] l[i]).1.bytes() == b),
-    decreases n
-{
-    if n > 0 {
-        lemma_seen_iff(l, n - 1, b);
-        if seen(l, n, b) {
-            if l[n - 1].1.bytes() == b { assert(0 <= n - 1 < n && l[n - 1].1.bytes() == b); }
-            else { let i = choose|i: int| 0 <= i < n - 1 && (#[trigger] l[i]).1.bytes() == b; assert(0 <= i < n && l[i].1.bytes() == b); }
-        }
-        if exists|i: int| 0 <= i < n && (#[trigger] l[i]).1.bytes() == b {
-            let i = choose|i: int| 0 <= i < n && (#[trigger] l[i]).1.bytes() == b;
-            if i < n - 1 { assert(0 <= i < n - 1 && l[i].1.bytes() == b); }
-        }
-    }
-}
+// (the reference decision `ietf_aggregate_verify` and its lemmas are in lib_sums.rs, shared with C03)
 
 /// the library's decision equals the reference on EVERY (aggregate, list) — in particular a
 /// Basic list with a repeated message is rejected even when the sum matches, while the
